@@ -306,7 +306,9 @@ def gen_case(cseed: int, tier: str) -> dict[str, Any]:
         faults: list[dict[str, Any]] = []
         writer_fail = None
         entry = h.choice(["string", "string", "with_emitter", "assemble", "patch", "cli"])
-        if kind == "fail":
+        if kind == "fail" or (kind == "same_path" and h.random() < 0.5):
+            # (a program stored under the probe's own path that fails: whatever is remembered per file name
+            # about a failure - quoted source lines, positions - belongs to that text, not to the probe's)
             slots = list(progen.iter_slots(prog))
             klass = f.choice(sorted(ERROR_CLASSES))
             if (klass == "unmapped_bank" and not prog.unmapped_addr) or (klass in ("run_off_mapped_rom", "address_beyond_24_bits", "branch_64k_away") and "map" in prog.features):
